@@ -61,6 +61,12 @@ func init() {
 		Rule:  "the Export bytes of a structure of each of the ten kinds after a short history: (1) the model's print of the parsed token tree must be the bytes and the tree a well-formed object; (2) the prefixes encoding/json accepts must be those the model's scanner calls complete",
 		Quick: 80, Thorough: 1500})
 
+	machineByID[14] = func() Machine { return &bigImage{} }
+	registry["C18"] = append(registry["C18"], Suite{Name: "large-images", NewMachine: func() Machine { return &bigImage{} }, Gen: genBigImage,
+		Monitors: []Monitor{monitorBigImage}, OpName: bigOpName, NoModel: true,
+		Rule:  "binary images of LARGE structures of the five in-memory kinds (2^16-2^17 registers, rows of 9,000-29,000 cells, about a million bits, thousands of buckets, a wide Top-K sketch) cut at some 400 sampled places each; every cut must be rejected (no model: monitor only)",
+		Quick: 5, Thorough: 60})
+
 	for _, sg := range structGensRedis {
 		sg := sg
 		registry["C10"] = append(registry["C10"], Suite{Name: sg.name, NewMachine: sg.mk, Gen: genPersist(sg, "C10"),
